@@ -92,6 +92,19 @@ func runC08(c *Ctx) {
 				// before advertise: at most the initial send
 				continue
 			}
+			// the "advertise must never return nil" panic may be tested before or after the cancellation test
+			nilPanic := false
+			if p.Panic != nil {
+				for _, a := range p.Atoms {
+					x, y, op, ok := effCmp(a)
+					if ok && exprIsNil(y) && op == token.EQL && exprCallIs(x, PkgCorerad, "Advertiser", "advertise") {
+						nilPanic = true
+					}
+				}
+			}
+			if nilPanic && s == "send,advertise" {
+				continue
+			}
 			key := fmt.Sprintf("%s:after-advertise@canceled=%v:%s", fn, canceled, pathKind(p))
 			want := "send,advertise"
 			if canceled {
@@ -219,6 +232,7 @@ func runC08(c *Ctx) {
 	scheduledOnly(c, "R-C08-4")
 	inFlightAwaited(c, "R-C08-5")
 	requestChannelSends(c, "R-C08-6")
+	c08WatchClosed(c)
 	signalOrder(c, "R-C08-3")
 }
 
@@ -805,8 +819,13 @@ func inFlightAwaited(c *Ctx, rule string) {
 			if _, isDefer := in.(*ssa.Defer); isDefer {
 				return
 			}
-			if l, ok := isMutexCall(ci.Common(), "Lock"); ok && barrier != nil && l == barrier {
-				locked = true
+			if l, ok := isMutexCall(ci.Common(), "Lock"); ok && barrier != nil {
+				// (the lock may be taken in a helper that receives the mutex's address)
+				if l == barrier {
+					locked = true
+				} else if e := p.Of(ci.Common().Args[0]); e != nil && (e.V == barrier || e.Contains(func(x *an.Expr) bool { return x.V == barrier })) {
+					locked = true
+				}
 			}
 		})
 		if !locked {
@@ -886,17 +905,21 @@ func requestChannelSends(c *Ctx, rule string) {
 		}
 	}
 	n := 0
-	done := map[ssa.Instruction]bool{}
+	type sendSite struct {
+		f  *ssa.Function
+		in ssa.Instruction
+	}
+	done := map[sendSite]bool{} // a send in a shared helper counts once per function that reaches it
 	isReq := func(v ssa.Value) bool { return strings.HasSuffix(typeStr(v.Type()), "netip.Addr") }
 	for _, f := range fns {
 		for _, p := range c.pathsO(rule, f, an.PathOpts{EmitCut: true}) {
 			p.Instrs(func(in ssa.Instruction) {
 				switch x := in.(type) {
 				case *ssa.Send:
-					if done[in] || !isReq(x.Chan) {
+					if done[sendSite{f, in}] || !isReq(x.Chan) {
 						return
 					}
-					done[in] = true
+					done[sendSite{f, in}] = true
 					n++
 					c.R.Check(false, rule, c.fname(x.Parent())+":request-send-cancellable", c.fname(x.Parent()), c.pos(x.Pos()),
 						fmt.Sprintf("bare send on %s", p.Of(x.Chan)), "a request is handed to the scheduler under a select with ctx.Done()",
@@ -908,10 +931,10 @@ func requestChannelSends(c *Ctx, rule string) {
 							send = true
 						}
 					}
-					if !send || done[in] {
+					if !send || done[sendSite{f, in}] {
 						return
 					}
-					done[in] = true
+					done[sendSite{f, in}] = true
 					n++
 					doneArm := false
 					for _, st := range x.States {
@@ -930,4 +953,44 @@ func requestChannelSends(c *Ctx, rule string) {
 		}
 	}
 	c.R.Check(n >= 2, rule, c.fname(adv)+":request-sends", c.fname(adv), c.pos(adv.Pos()), fmt.Sprintf("%d send(s) of a request", n), ">= 2 (listener callback, multicast loop)", "anchor-missing")
+}
+
+
+// c08WatchClosed (R-C08-7): the link watcher reports a link change only for a
+// value actually received: every path of its goroutine that returns
+// ErrLinkChange established the receive's ok == true. The Watcher closes the
+// subscription channels when the server stops; if a closed channel counted as
+// a change, a stop could end advertise() with ErrLinkChange, Run would skip
+// shutdown() and no final RA would be sent.
+func c08WatchClosed(c *Ctx) {
+	lw := c.needFunc("R-C08-7", "internal/corerad", "linkStateWatcher")
+	if lw == nil {
+		return
+	}
+	n, bad := 0, ""
+	for _, f := range an.WithAnon(lw) {
+		if f == lw {
+			continue
+		}
+		for _, p := range c.pathsO("R-C08-7", f, an.PathOpts{EmitCut: true}) {
+			if p.Ret == nil || len(p.Results) != 1 || !(p.Results[0].Op == an.OpGlobal && p.Results[0].Name == "system.ErrLinkChange") {
+				continue
+			}
+			n++
+			open := false
+			for _, a := range p.Atoms {
+				if a.Cond.Op == an.OpUnknown && a.Cond.Name == "select.recvOk" && a.Pos {
+					open = true
+				}
+				if a.Cond.Op == an.OpExtract && a.Cond.Idx == 1 && len(a.Cond.Args) == 1 && a.Cond.Args[0].Op == an.OpRecv && a.Pos {
+					open = true
+				}
+			}
+			if !open {
+				bad = "ErrLinkChange is returned without having established that a value was received (" + atomsString(p) + ")"
+			}
+		}
+	}
+	c.R.Check(n >= 1 && bad == "", "R-C08-7", c.fname(lw)+":closed-channel-is-not-a-change", c.fname(lw), c.pos(lw.Pos()), fmt.Sprintf("%d path(s) returning ErrLinkChange; %s", n, bad),
+		"ErrLinkChange only after a receive with ok == true", "the subscription channel closed at shutdown is taken for a link change: the advertiser stops without its final RA")
 }
